@@ -14,7 +14,7 @@ RULE = ("documents are built by independent serialisers from generated timestamp
         "(fields, not instants), lines ended by LF, CRLF or bare CR: SRT HH+:MM:SS[,mmm]; WebVTT [HH+:]MM:SS.mmm with ids, "
         "settings, NOTE blocks, empty cues and reader options (time shift of either sign - also one that moves cues before zero: none may be lost -, "
         "ignore_timing_errors, lang); DFXP clock time with 0-9 fraction digits or :FF frames, "
-        "offset times n[.d](h|m|s|ms|f), begin+end and begin+dur, empty <p>, 1-2 divs; SAMI "
+        "offset times n[.d](h|m|s|ms|f), begin+end and begin+dur, empty <p> (with, without or with partial timing attributes), 1-2 divs; SAMI "
         "syncs in 1-3 languages (also spaced by exactly 4 s, the default duration of a last cue) with ends given by blank P or the next cue, quoted/unquoted, "
         "upper/lower case; MicroDVD with/without {0}{0}fps header (any decimal rate 1-120 with 0-3 fraction digits; frames biased to those falling on whole microseconds). Expected instants come from "
         "exact Fraction arithmetic on the spelling. Exhaustive legs: MicroDVD frames 0..2.16M "
@@ -219,7 +219,9 @@ def dfxp_strategy(tier):
                     a, b = b, a
                 ps.append({"a": a, "b": b, "dur": use_dur,
                            "empty": draw(st.sampled_from([None, None, None, None, None, "", " ", "\n    "])),
-                           "end_first": draw(st.booleans())})
+                           "end_first": draw(st.booleans()),
+                           # timing attributes are optional in TTML: an empty <p> may have none
+                           "untimed": draw(st.sampled_from([None, None, "none", "id", "begin-only"]))})
             divs.append({"lang": ["en", "fr"][di], "ps": ps})
         return {"fmt": "dfxp", "reuse": draw(st.integers(0, 3)) == 0, "divs": divs, "indent": draw(st.booleans())}
     return build()
@@ -237,6 +239,8 @@ def check_dfxp(case, rec):
             if p["end_first"]:
                 attrs.reverse()
             inner = p["empty"] if p["empty"] is not None else f"cue {i}"
+            if p["empty"] is not None and p.get("untimed"):
+                attrs = {"none": [], "id": [("xml:id", f"gap{i}")], "begin-only": attrs[:1] if attrs[0][0] == "begin" else attrs[1:]}[p["untimed"]]
             ps.append({"attrs": attrs, "inner": inner})
             if p["empty"] is None:
                 ea = T.acceptable(p["a"])
